@@ -283,3 +283,11 @@ Proof.
     vec_lor 549755813888. fsimp. reflexivity.
   - rewrite (enc_vec m). vec_lor 549755813888. fsimp. reflexivity.
 Qed.
+
+(* ---- the acquire xor of DIRTY after a refused unlock ---- *)
+Lemma xor_dirty_fields r : wfr r ->
+  Z.lxor (enc r) 549755813888 =
+  enc (mk (f_owner r) (f_tr r) (f_enq r) (f_mq r) (f_ov r) (f_role r) (f_em r) (1 - f_d r) (f_pb r) (f_wq r) (f_ib r) (f_hi r)).
+Proof.
+  intros W. pose proof W as W'. unfold wfr in W'. rewrite (enc_vec r). vec_lxor 549755813888. fsimp. reflexivity.
+Qed.
